@@ -9,6 +9,7 @@ import (
 	"context"
 	"errors"
 	"fmt"
+	"math"
 	"sort"
 	"strings"
 	"sync"
@@ -99,7 +100,9 @@ type H struct {
 	EpsDefault    bool    `json:"eps_default,omitempty"` // no Threshold option is passed (default 30 min)
 	Mixed         bool    `json:"mixed,omitempty"`       // versions before MixSec carry no commit time (run only)
 	MixSec        int64   `json:"mix_s,omitempty"`
-	Polygon       bool    `json:"polygon,omitempty"` // relation tagged type=multipolygon
+	Polygon       bool    `json:"polygon,omitempty"`  // relation tagged type=multipolygon
+	Boundary      bool    `json:"boundary,omitempty"` // with Polygon: tagged type=boundary instead
+	Ring          bool    `json:"ring,omitempty"`     // way children are consecutive arcs of one closed ring
 	Children      []Child `json:"children"`
 	Parents       []PVer  `json:"parents"`
 	IgnoreInc     bool    `json:"ignore_inconsistency,omitempty"`
@@ -190,7 +193,11 @@ func (h *H) BuildRelations() osm.Relations {
 		r := &osm.Relation{ID: 4343, Version: p.Version, Visible: p.Visible, Timestamp: ts, Committed: com,
 			ChangesetID: osm.ChangesetID(p.CS), User: "u", UserID: 5, Tags: osm.Tags{{Key: "name", Value: "x"}}}
 		if h.Polygon {
-			r.Tags = append(r.Tags, osm.Tag{Key: "type", Value: "multipolygon"})
+			if h.Boundary {
+				r.Tags = append(r.Tags, osm.Tag{Key: "type", Value: "boundary"})
+			} else {
+				r.Tags = append(r.Tags, osm.Tag{Key: "type", Value: "multipolygon"})
+			}
 		}
 		for j, rf := range p.Refs {
 			c := &h.Children[rf.Child]
@@ -330,6 +337,9 @@ func (d *DS) WayHistory(_ context.Context, id osm.WayID) (osm.Ways, error) {
 			{ID: osm.NodeID(id*10 + 2), Version: 1, Lat: base + 0.5, Lon: base + 0.25},
 			{ID: osm.NodeID(id*10 + 3), Version: 1, Lat: base + 1, Lon: base},
 		}
+		if d.h.Ring {
+			pts = d.h.ringArc(c)
+		}
 		if v.Rev {
 			pts[0], pts[2] = pts[2], pts[0]
 		}
@@ -339,6 +349,29 @@ func (d *DS) WayHistory(_ context.Context, id osm.WayID) (osm.Ways, error) {
 		out = append(out, w)
 	}
 	return out, nil
+}
+
+// ringArc gives way child c its arc of a closed ring: the way children of the history, in
+// child order, are the consecutive sides of a regular polygon (shared end nodes, one located
+// node in between), so that they join into one ring.
+func (h *H) ringArc(c *Child) []osm.WayNode {
+	var m, j int
+	for i := range h.Children {
+		if h.Children[i].Type == osm.TypeWay {
+			if &h.Children[i] == c {
+				j = m
+			}
+			m++
+		}
+	}
+	if m < 3 {
+		m = 3
+	}
+	pt := func(k float64, id int64) osm.WayNode {
+		a := 2 * math.Pi * k / float64(m)
+		return osm.WayNode{ID: osm.NodeID(id), Version: 1, Lat: 10 + math.Round(math.Sin(a)*1e6)/1e6, Lon: 20 + math.Round(math.Cos(a)*1e6)/1e6}
+	}
+	return []osm.WayNode{pt(float64(j), int64(7000+j)), pt(float64(j)+0.5, int64(7500+j)), pt(float64(j+1), int64(7000+(j+1)%m))}
 }
 
 // RelationHistory implements the datasource interface.
